@@ -276,7 +276,9 @@ PROPS["C12"] = dict(
     kani=[dict(files=["contracts/C12/c12.rs"])],
     native=[dict(files=["contracts/C12/c12_native.rs"],
                  harnesses={"c12_native_keep_better_at_index": dict(anchor="KeepBetterAtIndex::replace",
-                            bound="BOUNDED STAND-IN, native exhaustive enumeration: equal sizes 0..2 over 5 objective values (incl. ties, +inf) + 4 unequal-size pairs")})],
+                            bound="BOUNDED STAND-IN, native exhaustive enumeration: equal sizes 0..2 over 5 objective values (incl. ties, +inf) + 4 unequal-size pairs"),
+                            "c12_native_random_replacement": dict(anchor="RandomReplacement::replace (real rand shuffle)",
+                            bound="BOUNDED STAND-IN, native run: 0..3 parents x 0..3 offspring x mu 0..7 x 16 seeds")})],
     min_obligations={"quick": 50, "thorough": 50},
     uncovered=["KeepBetterAtIndex is only covered by a BOUNDED native enumeration (ensure! => Kani ICE; iterator chain => Verus rejects)"],
 )
